@@ -14,7 +14,7 @@ Monitors.
     leave labels a subset of the saved ones (truncations / structural
     corruptions), and produce a complete loadable file again.
 (3) random save/corrupt/restore histories across two renderers against a model."""
-import os, pickle, tempfile, traceback, io
+import os, pickle, re, tempfile, traceback, io
 from .. import common
 from ..instrument import wrap
 from ..gen import docs
@@ -31,7 +31,7 @@ ASSUMPTIONS = ['bit flips inside a stored value may change that value without ma
                'trials only "no exception, next save complete and loadable" is judged, not the restored values',
                'the pickle format is the one produced by the running interpreter']
 DECIDING_HOOKS = ['Context.persist', 'Context.restore']
-DECIDING_COUNTERS = {'fault_points': 1000}
+DECIDING_COUNTERS = {'fault_points': 1000, 'second_document_shared_labels': 5, 'cross_document_refs': 5}
 
 
 def budget(tier):
@@ -367,6 +367,46 @@ def run_round(case, st):
                     st.violation('cross-document-reference', case, '\\ref{%s} in a second document resolves to %r' % (lab, tgt))
                     return {'nontrivial': True}
             st.counters['cross_document_refs'] += len(sec)
+        # a second document that restores this file and defines some of the same label names itself (what Compile.parse sets up
+        # for every other *.paux in the directory): its own labels are registered, win for its own references, and are the ones saved
+        if sec:
+            shared = [l for l in sorted(sec) if re.match(r'^[A-Za-z0-9:.+-]+$', l)][:2]
+            own = shared + ['zzown:1']
+            srcB = '\\documentclass{article}\\begin{document}' + ''.join('\\section{Zs%dy}\\label{%s} Zt%dy \\ref{%s} ' % (i, l, i, l) for i, l in enumerate(own)) + '\\end{document}'
+            try:
+                out3 = R.render(srcB, rn, before_parse=lambda tex, doc: doc.context.restore(paux, rn), jobname='second')
+            except common.CaseTimeout:
+                raise
+            except Exception as e:
+                st.violation('second-document/render-raises-' + type(e).__name__, case, traceback.format_exc()[-600:])
+                return {'nontrivial': True}
+            finally:
+                common.plastex_reset()
+            try:
+                doc3 = out3.doc
+                st.counters['second_document_shared_labels'] += len(shared)
+                secs = doc3.getElementsByTagName('section')
+                for i, l in enumerate(own):
+                    node = doc3.context.labels.get(l)
+                    if node is not secs[i]:
+                        st.violation('second-document/own-label-not-registered', case, 'label %s defined by the second document names %r (ref %r), not its own section %d' % (
+                            l, node, None if node is None else node.__dict__.get('ref'), i + 1))
+                        return {'nontrivial': True}
+                for rnode in doc3.getElementsByTagName('ref'):
+                    lab = rnode.attributes['label']
+                    if rnode.idref.get('label') is not secs[own.index(lab)]:
+                        st.violation('second-document/own-reference', case, '\\ref{%s} of the second document resolves to %r instead of its own section' % (lab, rnode.idref.get('label')))
+                        return {'nontrivial': True}
+                bp = os.path.join(out3.outdir, 'second.paux')
+                try:
+                    d = pickle.load(open(bp, 'rb'))
+                except Exception as ex:
+                    d = {'<unloadable>': repr(ex)}
+                if set(d.get(rn, {})) != set(own) or any(d[rn][l].get('ref') != str(i + 1) for i, l in enumerate(own)):
+                    st.violation('second-document/saved-labels', case, 'second document saved %r, its own labels are %r numbered 1..%d' % (d, own, len(own)))
+                    return {'nontrivial': True}
+            finally:
+                out3.cleanup()
         # saving with the other renderer keeps this section intact
         ctx3 = fresh_ctx()
         ctx3.persistentLabels = nodes_for(ctx3, {'zz:1': {'id': 'zz:1', 'ref': '9', 'url': 'x.html'}})
